@@ -221,9 +221,15 @@ def check_layers(ctx, prog, bits):
         m = bits[bit]
         bad = None
         nok = 0
+        badf = None
         for st, key in ex.exits:
             r = st.get("$ret")
             if isinstance(r, AVal) and not r.may_be_zero():
+                # a failing exit: the dispatcher records nothing, so the driver must not have made the change either
+                v = st.get(dom.fkey)
+                k1, k0 = (v.k1, v.k0) if v is not None and v.kind == "bits" else (0, 0)
+                if ((k1 & m) == m if want == "set" else (k0 & m) == m) and badf is None:
+                    badf = (st, key)
                 continue
             nok += 1
             v = st.get(dom.fkey)
@@ -241,6 +247,15 @@ def check_layers(ctx, prog, bits):
                      detail={"path": ex.describe_path(key), "exit_state": repr(st)})
         else:
             ctx.ok("R11.layers", inst, "%d successful exit state(s), bit %s on all" % (nok, want))
+        inst = "%s:%s:onfail" % (dname, bit)
+        if badf:
+            st, key = badf
+            ctx.fail("R11.layers", dname, bit + ":onfail", "a path returns an error from %s() after it has already %s %s: the dispatcher "
+                     "records the change only on success, so the failed call has changed the mode in one layer only"
+                     % (dname, "set" if want == "set" else "cleared", bit), fn=fn, line=fn.line, inst=inst,
+                     detail={"path": ex.describe_path(key), "exit_state": repr(st)})
+        else:
+            ctx.ok("R11.layers", inst, "no exit that certainly fails has %s already %s" % (bit, "set" if want == "set" else "cleared"))
 
 
 class GuardDom(InlineDomain):
